@@ -36,6 +36,9 @@ CHECKS = {
  "C09": dict(engine="sxg", design="5/C09", technique="TLC trace validation (tla/Trace_Sxg kind ver, exact): real Verify verdict must equal predicate Accept(x,t) of tla/Sxg.tla on a deviation grid of real signed exchanges",
    text="Per version: baseline, every single deviation (instants incl. +-1 ns, lifetimes around 7 days, methods, every banned header in 4 letter cases, Cache-Control subsets as one or several field lines, Expires, statuses 100..599, validity-URL origin variants, Content-Type, integrity id), the same on a non-default-cacheable status, sampled pairs and 3..5-way combinations; verdict equality in both directions.",
    note="Trusted: TLC, JDK crypto, tla/Sxg.tla (RFC 7234 section 3, RFC 6454, banned lists of the impl draft; UnderstoodStatus = go1.23.5 http.StatusText table)."),
+ "C17": dict(engine="certurl", design="5/C17", technique="TLC exhaustive model checking of presence patterns (tla/MC_CertChain) + replay of every pattern with real certificates + TLC trace validation (tla/Trace_CertChain, JDK X.509 parser via overrides)",
+   text="TLC enumerates every chain of up to 3/4 certificates x ocsp/sct absent/empty/short (writable iff valid, reader inverts writer, canonical); every pattern and a blob-size grid are written/read by the real code with real P-256/P-384 certificates; output must equal the specified canonical bytes, reading must accept exactly the valid chains and return the bytes of the input; damaged encodings and RFC 6962 SCT lists at the 65535 limits are judged by the same spec.",
+   note="Trusted: TLC, JDK CertificateFactory for deliberately corrupted DER (random damage inside a certificate: soundness only), tla/CertChain.tla."),
 }
 
 def main():
@@ -51,6 +54,7 @@ def main():
             {"name": "mice", "path": "tla/MiceCore.tla tla/Mice.tla tla/MC_Mice.tla tla/Trace_Mice.tla tla/Crypto.tla tla/overrides lib/mice_checks.py harness/cmd/vh/mice*.go", "serves_properties": ["C14", "C15"], "kind_free_text": "TLA+ spec (abstract + concrete crypto instantiation) + TLC + Go replay harness"},
             {"name": "sh", "path": "tla/StructuredHeader.tla tla/MC_SH.tla tla/Trace_SH.tla lib/sh_checks.py harness/cmd/vh/sh.go", "serves_properties": ["C16"], "kind_free_text": "TLA+ reference parsers + TLC + Go harness"},
             {"name": "sxg", "path": "tla/Sxg.tla tla/SxgConsts.tla tla/Url.tla tla/Trace_Sxg.tla lib/sxg_checks.py harness/cmd/vh/sxg*.go", "serves_properties": ["C01", "C02", "C08", "C09"], "kind_free_text": "TLA+ byte-level spec + TLC trace validation with JDK crypto + Go harness"},
+            {"name": "certurl", "path": "tla/CertChain.tla tla/MC_CertChain.tla tla/Trace_CertChain.tla lib/cert_checks.py harness/cmd/vh/certurl.go", "serves_properties": ["C17"], "kind_free_text": "TLA+ spec + TLC + Go harness"},
          ],
          "checks": [], "notes": "See DESIGN.md. Exit 2 of a check means infrastructure failure, never a verdict.", "not_applicable": []}
     for i in ids:
